@@ -138,7 +138,7 @@ fn suite(run: &Run, a: &[f64], n: usize, tag: &str) {
 }
 
 pub fn run(run: &Run) {
-    run.rule("(a) every nonsingular n×n matrix over {0,±1,±2,2^-30} for n≤2 and over {0,±1,2^-30} for n=3 (thorough: all six letters for n=3, {0,±1} for n=4); (b) families minmat, pascal, tridiag, ddom, P·D·T, symmetric-indefinite, graded for every order 1..=20 (32 thorough) × every single-entry deviation × row transpositions × single diagonal sign flips × scalings {2^-60,1,2^40}; six entry points, right-hand sides with 1,2,3,6 columns; singular cases (exact determinant 0 mod 2^61-1) are skipped; non-trivial = routed to Cholesky, needs pivoting, or scaled");
+    run.rule("(a) every nonsingular n×n matrix over {0,±1,±2,2^-30} for n≤2 and over {0,±1,2^-30} for n=3 (thorough: all six letters for n=3, {0,±1} for n=4); (b) families minmat, pascal, tridiag, ddom, P·D·T, symmetric-indefinite, graded for every order 1..=20 (32 thorough) × every single-entry deviation × row transpositions × single diagonal sign flips × scalings {2^-60,1,2^40}; (c) deterministic pseudo-random dense and SPD (AᵀA+I) matrices of every order 5..=32; six entry points, right-hand sides with 1,2,3,6 columns; singular cases (exact determinant 0 mod 2^61-1) are skipped; non-trivial = routed to Cholesky, needs pivoting, or scaled");
     let t30 = 2f64.powi(-30);
     // (a) small matrices
     let l2: Vec<f64> = vec![0.0, 1.0, -1.0, 2.0, -2.0, t30];
@@ -250,10 +250,29 @@ pub fn run(run: &Run) {
             }
         }
     });
+    // (c) pseudo-random dense matrices (entries k/8), every order 5..=32, general and SPD (AᵀA + I)
+    let per = run.tier.pick(6u64, 40u64);
+    run.bound("random dense", format!("{} deterministic pseudo-random matrices per order 5..=32, general and A^T A + I", per));
+    (5..=32usize).into_par_iter().for_each(|n| {
+        for seed in 0..per {
+            let a = lcg_dense(n, n, seed * 131 + n as u64);
+            match nonsingular(&a, n) {
+                Some(true) => {
+                    suite(run, &a, n, "random-dense");
+                    run.nontrivial(1);
+                }
+                _ => run.skip("singular"),
+            }
+            if seed % 2 == 0 {
+                let g = gram_spd(&a, n);
+                suite(run, &g, n, "random-spd");
+            }
+        }
+    });
     for r in ["route:symmetric-positive-diagonal", "route:general", "route:tiny-asymmetric-positive-diagonal", "route:symmetric-other"] {
         run.require_regime(r);
     }
     run.assume("normwise backward error ‖AX−B‖∞/(‖A‖∞‖X‖∞+‖B‖∞) ≤ 64n²u with the residual in double-double; the inverse is judged column by column against the identity");
     run.assume("nonsingularity is certified by a non-zero determinant modulo 2^61−1 of the integer-scaled matrix; cases with determinant ≡ 0 are skipped and counted");
-    run.assume("random dense matrices of order 5..32 are represented by structured integer families and their single-entry neighbourhoods only");
+    run.assume("dense matrices of order 5..32 are covered by structured integer families, their single-entry neighbourhoods and 6 (40) pseudo-random matrices per order");
 }
